@@ -2,10 +2,10 @@
 import sys
 area, wt = sys.argv[1], sys.argv[2]
 AREAS = {
- "N1": ("wtxmgr (its own Go module: run tests with `cd wtxmgr && go test ./...`)", "wtxmgr/tx.go (updateMinedBalance, insertMinedTx, addCredit, rollback, fetchCredits, Balance, LockOutput/UnlockOutput/DeleteExpiredLockedOutputs/ListLockedOutputs), wtxmgr/unconfirmed.go (insertMemPoolTx, removeDoubleSpends, removeConflict, UnminedTxs), wtxmgr/query.go (minedTxDetails, unminedTxDetails, TxDetails, RangeTransactions), wtxmgr/db.go (isLockedOutput, lockOutput, unlockOutput, credit/debit iterators, value/fetch helpers)"),
- "N2": ("waddrmgr (root module: `go test ./waddrmgr/...`)", "waddrmgr/manager.go (lock, Lock, Unlock, ChangePassphrase, ConvertToWatchingOnly, selectCryptoKey, Create, createManagerKeyScope, deriveCoinTypeKey, deriveAccountKey), waddrmgr/scoped_manager.go (loadAccountInfo, deriveKey, nextAddresses, extendAddresses, newAccount, ImportPrivateKey, importPublicKey, importScriptAddress, RenameAccount, MarkUsed, DeriveFromKeyPathCache), waddrmgr/address.go (managedAddress lock/unlock/PrivKey, script address Script(), newManagedAddress*), waddrmgr/db.go (put*/serialize*/deletePrivateKeys/PutSyncedTo), waddrmgr/sync.go"),
- "N3": ("wallet (root module: `go test ./wallet/...`, takes ~30s)", "wallet/wallet.go (syncWithChain, recovery, recoverScopedAddresses, expandScopeHorizons, extendFoundAddresses, txCreator, NewAddress/NewChangeAddress/CurrentAddress/newAddress, resendUnminedTxs, reliablyPublishTransaction, publishTransaction, OpenWithRetry, walletLocker), wallet/createtx.go (txToOutputs, findEligibleOutputs, addrMgrWithChangeSource, validateMsgTx), wallet/chainntfns.go (handleChainNotifications, connectBlock, disconnectBlock), wallet/recovery.go (Resurrect), wallet/psbt.go (FundPsbt), wallet/import.go (ImportAccountDryRun)"),
- "N4": ("walletdb (own module: `cd walletdb && go test ./...`), snacl and chain (root module: `go test ./snacl/... ./chain/... -skip TestBitcoindEvents`)", "walletdb/bdb/db.go (convertErr, transaction/bucket/cursor adapters, db.Update, db.View, db.Batch), walletdb/interface.go (View/Update helpers), walletdb/migration/manager.go (GetLatestVersion, VersionsToApply, upgrade, Upgrade), snacl/snacl.go (Encrypt, Decrypt, DeriveKey, Marshal, Unmarshal), chain/queue.go (ConcurrentQueue.Start)"),
+ "N1": ("wtxmgr (its own Go module: run tests with `cd wtxmgr && go test ./...`)", "wtxmgr/tx.go (updateMinedBalance, insertMinedTx, addCredit, rollback, fetchCredits, Balance, LockOutput/UnlockOutput/DeleteExpiredLockedOutputs/ListLockedOutputs), wtxmgr/unconfirmed.go (insertMemPoolTx, removeDoubleSpends, removeConflict, UnminedTxs), wtxmgr/query.go (minedTxDetails, unminedTxDetails, TxDetails, RangeTransactions), wtxmgr/db.go (isLockedOutput, lockOutput, unlockOutput, credit/debit iterators, blockIterator next/prev, unspendRawCredit, value/fetch helpers), wtxmgr/kahnsort.go (makeGraph, graphRoots, DependencySort), wtxmgr/tx.go Store.Rollback/Store.Balance third pass, wtxmgr/unconfirmed.go insertMemPoolTx"),
+ "N2": ("waddrmgr (root module: `go test ./waddrmgr/...`)", "waddrmgr/manager.go (lock, Lock, Unlock, ChangePassphrase, ConvertToWatchingOnly, selectCryptoKey, Create, createManagerKeyScope, deriveCoinTypeKey, deriveAccountKey), waddrmgr/scoped_manager.go (loadAccountInfo, deriveKey, nextAddresses, extendAddresses, newAccount, ImportPrivateKey, importPublicKey, importScriptAddress, RenameAccount, MarkUsed, DeriveFromKeyPathCache), waddrmgr/address.go (managedAddress lock/unlock/PrivKey, script address Script(), newManagedAddress*), waddrmgr/db.go (put*/serialize*/deletePrivateKeys/PutSyncedTo/putChainedAddress), waddrmgr/sync.go, plus Manager.Encrypt/Decrypt, keyToManaged, newAccount/newAccountWatchingOnly"),
+ "N3": ("wallet (root module: `go test ./wallet/...`, takes ~30s)", "wallet/wallet.go (syncWithChain, recovery, recoverScopedAddresses, expandScopeHorizons, extendFoundAddresses, txCreator, NewAddress/NewChangeAddress/CurrentAddress/newAddress, resendUnminedTxs, reliablyPublishTransaction, publishTransaction, OpenWithRetry, walletLocker), wallet/createtx.go (txToOutputs, findEligibleOutputs, addrMgrWithChangeSource, validateMsgTx), wallet/chainntfns.go (handleChainNotifications, connectBlock, disconnectBlock), wallet/recovery.go (Resurrect), wallet/psbt.go (FundPsbt), wallet/import.go (ImportAccountDryRun, importAccount), wallet/createtx.go makeInputSource/constantInputSource"),
+ "N4": ("walletdb (own module: `cd walletdb && go test ./...`), snacl and chain (root module: `go test ./snacl/... ./chain/... -skip TestBitcoindEvents`)", "walletdb/bdb/db.go (convertErr, transaction/bucket/cursor adapters, db.Update, db.View, db.Batch), walletdb/interface.go (View/Update helpers), walletdb/migration/manager.go (GetLatestVersion, VersionsToApply, upgrade, Upgrade), snacl/snacl.go (Encrypt, Decrypt, DeriveKey, deriveKey, Marshal, Unmarshal), chain/queue.go (ConcurrentQueue.Start/Stop), chain/block_filterer.go (FilterTx, FilterOutputAddrs), chain/btcd.go + chain/neutrino.go (MapRPCErr, handler notification queues), chain/errors.go (error tables: only reorder/regroup entries or comments, never change a key or value), walletdb/bdb/db.go bucket.Get/cursor methods"),
  "N5": ("wallet/txauthor, wallet/txsizes, wallet/txrules (each its own module: `cd wallet/txauthor && go test ./...` etc.)", "wallet/txauthor/author.go (NewUnsignedTransaction, AddAllInputScripts), wallet/txsizes/size.go (EstimateVirtualSize, EstimateSerializeSize, GetMinInputVirtualSize, SumOutputSerializeSizes), wallet/txrules/rules.go (FeeForSerializeSize, IsDustOutput, CheckOutput)"),
 }
 mod, funcs = AREAS[area]
@@ -31,4 +31,4 @@ Do NOT: change any arithmetic or comparison semantics, drop or add checks, chang
 - After each refactoring run `go build ./...`, `go vet` of the touched package and the existing tests of the touched module; they must pass. (`chain`'s TestBitcoindEvents fails on the unmodified tree too: no bitcoind binary; skip it.)
 
 ## Deliverables (write into {wt}/REFACTOR/)
-For k in 1..5: `{wt}/REFACTOR/k/patch.diff` = `git diff` of that ONE refactoring against the unmodified tree (each patch must apply on its own with `git apply` from the repository root), and `{wt}/REFACTOR/k/README.md` (which function, which shape, why behaviour is unchanged, what you ran). Produce each patch from a clean tree (git checkout -- . between them). Leave tracked files UNMODIFIED at the end. Finish with a short report listing the five refactorings.""")
+For k in 1..5: `{wt}/REFACTOR/k/patch.diff` = `git diff` of that ONE refactoring against the unmodified tree (each patch must apply on its own with `git apply` from the repository root), and `{wt}/REFACTOR/k/README.md` (which function, which shape, why behaviour is unchanged, what you ran). Produce each patch from a clean tree (git checkout -- . between them). Leave tracked files UNMODIFIED at the end. Do NOT use `git stash` (the stash is shared between worktrees of other workers): keep work in patch files and use `git apply` / `git apply -R` / `git checkout -- .`. Finish with a short report listing the five refactorings.""")
